@@ -346,7 +346,7 @@ theorem client_in_key_source (managed inR inM inS : Bool) (own : Ctx) (resp medi
     cases resp with
     | some m =>
       simp only [Option.isSome_some] at hR; subst hR
-      simp only [clientInKeySource, Bool.false_eq_true, if_false, if_true, clientInCtx, Option.bind_some] at h
+      simp only [clientInKeySource, Sec.keySourceResponseFirst, Bool.false_eq_true, if_false, if_true, clientInCtx, Option.bind_some] at h
       cases hm : mikeyToContext m now with
       | error e => simp [hm, Except.toOption] at h
       | ok c' => simp [hm, Except.toOption] at h; subst h; exact ⟨m, hm, Or.inl rfl⟩
@@ -355,7 +355,7 @@ theorem client_in_key_source (managed inR inM inS : Bool) (own : Ctx) (resp medi
       cases media with
       | some m =>
         simp only [Option.isSome_some] at hM; subst hM
-        simp only [clientInKeySource, Bool.false_eq_true, if_false, if_true, clientInCtx, Option.bind_some] at h
+        simp only [clientInKeySource, Sec.keySourceResponseFirst, Bool.false_eq_true, if_false, if_true, clientInCtx, Option.bind_some] at h
         cases hm : mikeyToContext m now with
         | error e => simp [hm, Except.toOption] at h
         | ok c' => simp [hm, Except.toOption] at h; subst h; exact ⟨m, hm, Or.inr (Or.inl ⟨rfl, rfl⟩)⟩
@@ -364,13 +364,13 @@ theorem client_in_key_source (managed inR inM inS : Bool) (own : Ctx) (resp medi
         cases sess with
         | some m =>
           simp only [Option.isSome_some] at hS; subst hS
-          simp only [clientInKeySource, Bool.false_eq_true, if_false, if_true, clientInCtx, Option.bind_some] at h
+          simp only [clientInKeySource, Sec.keySourceResponseFirst, Bool.false_eq_true, if_false, if_true, clientInCtx, Option.bind_some] at h
           cases hm : mikeyToContext m now with
           | error e => simp [hm, Except.toOption] at h
           | ok c' => simp [hm, Except.toOption] at h; subst h; exact ⟨m, hm, Or.inr (Or.inr ⟨rfl, rfl, rfl⟩)⟩
         | none =>
           simp only [Option.isSome_none] at hS; subst hS
-          simp [clientInKeySource, clientInCtx] at h
+          simp [clientInKeySource, Sec.keySourceResponseFirst, clientInCtx] at h
 
 /-- **no_downgrade_on_redirect.**  Along ANY chain of redirects that starts on rtsps the client's
 scheme stays rtsps, and the chain is followed to the end only if every Location is rtsps. -/
@@ -902,6 +902,48 @@ theorem rtcp_limit_tight (site : RtcpSite) (maxPacketSize mkiLen : Nat)
     simp only [rtcpWireSize, rtcpOverheadAt, Sec.rtcpLimitStream, Sec.rtcpLimitSession, Sec.rtcpLimitMulticast,
       Sec.rtcpLimitClient, Sec.srtcpOverhead, if_true, reduceCtorEq, if_false] at hm ⊢ <;>
     (constructor <;> (split <;> simp <;> omega))
+
+/-! ## 8. the reading client takes its roll-over counter from the SETUP response -/
+
+/-- **reader_roc_from_setup_response.**  Sender context `a` when the reader DESCRIBEs (the SDP carries
+`contextToMikey a`).  The sender then writes `n + 1` more packets of the SSRC — across ANY number of
+sequence-number wraps — before the reader's SETUP, whose response carries the MIKEY message of the
+sender's context at that moment.  Because `doSetup` prefers the response header over the SDP
+attributes (`keySourceResponseFirst`), the reader's inbound context starts with the sender's ROC of
+SETUP time, `⌊(j0 + n) / 2^16⌋`, however stale the SDP is. -/
+theorem reader_roc_from_setup_response {W WC} (ci : Cipher W WC)
+    (a own : Ctx) (ssrc j0 n : Nat) (payload : Nat → Bytes)
+    (csbD csbS : Nat) (randD randS : Bytes) (tsD tsS : Nat) (now : Int) (sess : Option Message) (inS : Bool)
+    (hk : a.key.length = 30) (hs : ssrc ∈ a.ssrcs) (hw : InWindow now tsS)
+    (h0 : Fits (a.state ssrc) j0) (hfw : (a.state ssrc).processed = true → (a.state ssrc).index ≤ j0)
+    (hb : j0 + (n + 1) < two48) :
+    ∃ a' fs b, sendAll ci (some a) ssrc ((List.range (n + 1)).map fun k => (j0 + k, payload k)) = some (some a', fs) ∧
+      clientInCtx (clientInKeySource false true true inS) own
+        (some (contextToMikey a' csbS randS tsS))     -- KeyMgmt header of the SETUP response
+        (some (contextToMikey a csbD randD tsD))      -- key-mgmt attribute of the SDP obtained at DESCRIBE
+        sess now = some b ∧
+      b.key = a.key ∧ b.roc ssrc = a'.roc ssrc ∧ b.roc ssrc = (j0 + n) / 65536 := by
+  obtain ⟨a', fs, hsend, hroc, _⟩ := sender_roc_after ci a ssrc j0 payload n h0 hfw hb
+  have hf : FitsAll (a.state ssrc) (((List.range (n + 1)).map fun k => (j0 + k, payload k)).map (·.1)) := by
+    have := fitsAll_consecutive (a.state ssrc) j0 (n + 1) h0 hb
+    simpa [List.map_map, Function.comp_def] using this
+  obtain ⟨a2, e2, k2, _, s2, _, _⟩ := sender_emits ci a ssrc _ hf
+  have ea : a2 = a' := by
+    rw [hsend] at e2
+    simp only [Option.some.injEq, Prod.mk.injEq] at e2
+    exact e2.1.symm
+  subst ea
+  obtain ⟨b, hb1, bk, _, _, _, hst, _⟩ := ctx_mikey_roundtrip a2 csbS randS tsS now (by rw [k2]; exact hk) hw
+  refine ⟨a2, fs, b, hsend, ?_, bk.trans k2, (hst ssrc (s2 ▸ hs)).1, ((hst ssrc (s2 ▸ hs)).1).trans hroc⟩
+  simp [clientInKeySource, Sec.keySourceResponseFirst, clientInCtx, hb1, Except.toOption]
+
+/-- … whereas the message found in the SDP is stale as soon as one wrap lies between DESCRIBE and
+SETUP: it still says ROC 0 while the sender is at ROC 1 (witness: sender at index 65535). -/
+theorem sdp_key_is_stale_after_wrap :
+    ∃ a' f, writeRTP ideal (some staleSender) { ssrc := 5, seq := 0, payload := [1] } = some (some a', f) ∧
+      (contextToMikey staleSender 0 [] 0).header.csIdMapInfo.map (·.roc) = [0] ∧
+      (contextToMikey a' 0 [] 0).header.csIdMapInfo.map (·.roc) = [1] := by
+  refine ⟨_, _, rfl, ?_, ?_⟩ <;> decide
 
 /-! ### non-vacuity -/
 
